@@ -11,7 +11,7 @@ from props import dispshapes as D
 INST_NAMES = ("pub", "nested.deep", "_priv", "nested._hid", "_private_obj.deep", "__dunder__", "missing",
               "nested.missing", "pub.__call__", "nested.__class__", "", ".pub", "pub.", "nested..deep",
               "__init__", "_reg", "nested.deep.__self__._hid", "pub.im_func", "éé", "nosuch")
-FUNC_NAMES = ("echo", "add2", "opt", "boom", "retv", "keys", "a.b", "méthode x", "nosuch", "a", "b", "a.b.c", "Echo",
+FUNC_NAMES = ("echo", "add2", "wrapped", "opt", "boom", "retv", "keys", "a.b", "méthode x", "nosuch", "a", "b", "a.b.c", "Echo",
               "echo ", "_dispatch", "register_function", "funcs", "__class__", "system.listMethods")
 PARAM_KINDS = ("elist", "args1", "args2", "args3", "edict", "kwa", "kwab", "kwx", "nested")
 EXCS = ("ValueError", "RuntimeError", "KeyError", "BoomError", "ZeroDivisionError", "AttributeError")
@@ -71,7 +71,7 @@ def obligations(tier, H):
     for cfg in configs:
         for form in forms:
             for name in FUNC_NAMES:
-                for pk in (PARAM_KINDS if name in ("add2", "opt", "echo", "nosuch") else ("args1", "kwa")):
+                for pk in (PARAM_KINDS if name in ("add2", "wrapped", "opt", "echo", "nosuch") else ("args1", "kwa")):
                     spec, leaves = D.entry(dict(form, method="m:" + name, params=pk))
                     extra = [("rv", "int")] if name == "retv" else []
                     add(dict(cfg, request=spec, case=["func", name, pk]), leaves, extra)
